@@ -19,7 +19,8 @@ from traits.api import HasTraits, Int, List, Range, push_exception_handler, pop_
 ID = "C20"
 LEVEL = "exploration"
 RULE = ("Hypothesis histories (<=25 steps) over sync/unsync (mutual and one-way, 8 attribute pairings incl. aliases and stricter "
-        "partners), scalar and whole-list assignments, 16 list mutators, partner collection; non-trivial = history containing a "
+        "partners, re-issuing an existing link with another flag/direction, removing one direction), scalar and whole-list "
+        "assignments, 16 list mutators, partner collection; non-trivial = history containing a "
         "list mutation other than append, an unlink, a partner collection or a rejecting partner, with at least one link; "
         "distinct by digest")
 ASSUMPTIONS = ["after an independent change of the target of a ONE-WAY list link the two lists legitimately differ; in-place "
